@@ -634,8 +634,9 @@ impl C14 {
     fn options(&mut self, rep: &mut Report) {
         // IHL 4 bit: at most 60 byte header = 40 option bytes, multiples of 4
         let base = Ipv4Header::new(0, 1, IpNumber(6), [0; 4], [0; 4]).unwrap();
-        for len in 0..=70usize {
-            let data: Vec<u8> = (0..len).map(|i| i as u8 + 1).collect();
+        // (and the lengths that wrap onto an acceptable value when narrowed to 8 or 16 bit)
+        for len in (0..=70usize).chain(250..=300).chain(508..=520).chain(65_530..=65_580) {
+            let data: Vec<u8> = (0..len).map(|i| (i as u8).wrapping_add(1)).collect();
             let ok_expected = len <= 40 && len % 4 == 0;
             rep.evals += 2;
             let mut h = base.clone();
